@@ -660,6 +660,29 @@ pub fn c13(rec: &mut Rec, lm: &Landmarks, rng: &mut Rng, thorough: bool) {
         let r = with_deadline(DEADLINE_S, move || Epoch::from_format_str(&o, &ff).is_ok());
         total_ev(m.rec, "format_str", &s, Some(f2), r);
     }
+    // formats at and next to the maximum number of tokens, parsed against inputs that run through every
+    // field and then continue (separator, more text)
+    let num_toks = ["%d", "%m", "%H", "%M", "%S", "%Y", "%j", "%f"];
+    for ntok in [14usize, 15, 16, 17] {
+        for rep in 0..(if thorough { 40 } else { 6 }) {
+            let mut f = String::new();
+            for i in 0..ntok {
+                f.push_str(if rep == 0 { "%d" } else { *rng.pick(&num_toks) });
+                f.push_str(if i + 1 < ntok || rep % 2 == 0 { *rng.pick(&[" ", "-", ":", ", "]) } else { "" });
+            }
+            let e = Epoch::from_duration(ns_dur(elapsed_4digit(rng, TimeScale::UTC)), TimeScale::UTC);
+            let ff = f.clone();
+            let rendered = catch(move || Format::from_str(&ff).map(|x| format!("{}", Formatter::new(e, x))).unwrap_or_default()).unwrap_or_default();
+            let base = if rendered.is_empty() { "01 ".repeat(ntok) } else { rendered };
+            for tail in ["", " ", " UTC", " 01", "x", "-01 ", " 01 02 03"] {
+                let s = format!("{base}{tail}");
+                let o = s.clone();
+                let ff = f.clone();
+                let r = with_deadline(DEADLINE_S, move || Epoch::from_format_str(&o, &ff).is_ok());
+                total_ev(m.rec, "format_str", &s, Some(&f), r);
+            }
+        }
+    }
     // random strings
     let n = if thorough { 60_000 } else { 2_500 };
     for _ in 0..n {
